@@ -1,5 +1,131 @@
+import SamVerif.Model.IntRange
+import SamVerif.Model.Assign
 import Driver.Util
-/-! Line-protocol driver for property C06 (model side). Not implemented yet. -/
+/-! Line-protocol driver for property C06 (model side).
+  tok <raw>*            raw ::= i<digits> | m | o<k>        -> `T <tok,...> E <flags> V <values>`
+  asg <ty> <ty>                                             -> `a=. m=. s=. p=..`
+  slv <tps> <concrete> <generic>                            -> `s=. g=. e=.`
+Type syntax (prefix, no blanks): a0 a1 | u b i | g<n>; | n<s>,<m>,<id>(<ty>*) | f(<ty>*)<ty> -/
+namespace Driver.C06
+open SamVerif Driver
+
+def parseRaw (s : String) : Option IntRange.Raw :=
+  match s.toList with
+  | ['m'] => some .minus
+  | 'i' :: ds => (String.ofList ds).toNat?.map .int
+  | 'o' :: ds => (String.ofList ds).toNat?.map .other
+  | _ => none
+
+def showRaw : IntRange.Raw → String
+  | .int v => "i" ++ toString v
+  | .minus => "m"
+  | .other k => "o" ++ toString k
+
+def showTok : IntRange.Tok → String
+  | .raw r => showRaw r
+  | .negMin => "n"
+
+def commaOrDash (l : List String) : String := if l.isEmpty then "-" else ",".intercalate l
+
+def takeNum (cs : List Char) : Option (Nat × List Char) :=
+  let ds := cs.takeWhile Char.isDigit
+  if ds.isEmpty then none else (String.ofList ds).toNat?.map (·, cs.dropWhile Char.isDigit)
+
+open Assign in
+mutual
+partial def parseTy : List Char → Option (Ty × List Char)
+  | 'a' :: '0' :: r => some (.any false, r)
+  | 'a' :: '1' :: r => some (.any true, r)
+  | 'u' :: r => some (.prim .unit, r)
+  | 'b' :: r => some (.prim .bool, r)
+  | 'i' :: r => some (.prim .int, r)
+  | 'g' :: r =>
+    match takeNum r with
+    | some (n, ';' :: r') => some (.generic n, r')
+    | _ => none
+  | 'n' :: s :: ',' :: r =>
+    match takeNum r with
+    | some (m, ',' :: r1) =>
+      match takeNum r1 with
+      | some (i, '(' :: r2) =>
+        match parseList r2 with
+        | some (ts, r3) => some (.nominal (s == '1') m i ts, r3)
+        | none => none
+      | _ => none
+    | _ => none
+  | 'f' :: '(' :: r =>
+    match parseList r with
+    | some (as, r1) =>
+      match parseTy r1 with
+      | some (t, r2) => some (.fn as t, r2)
+      | none => none
+    | none => none
+  | _ => none
+partial def parseList : List Char → Option (List Ty × List Char)
+  | ')' :: r => some ([], r)
+  | cs =>
+    match parseTy cs with
+    | some (t, r) =>
+      match parseList r with
+      | some (ts, r') => some (t :: ts, r')
+      | none => none
+    | none => none
+end
+
+def parseTyS (s : String) : Option Assign.Ty :=
+  match parseTy s.toList with
+  | some (t, []) => some t
+  | _ => none
+
+open Assign in
+partial def showTy : Ty → String
+  | .any p => if p then "a1" else "a0"
+  | .prim .unit => "u"
+  | .prim .bool => "b"
+  | .prim .int => "i"
+  | .generic n => "g" ++ toString n ++ ";"
+  | .nominal s m i ts =>
+    "n" ++ (if s then "1" else "0") ++ "," ++ toString m ++ "," ++ toString i ++ "(" ++
+      String.join (ts.map showTy) ++ ")"
+  | .fn as r => "f(" ++ String.join (as.map showTy) ++ ")" ++ showTy r
+
+def bit (b : Bool) : String := if b then "1" else "0"
+
+def insertSorted (kv : Nat × String) : List (Nat × String) → List (Nat × String)
+  | [] => [kv]
+  | x :: xs => if kv.1 ≤ x.1 then kv :: x :: xs else x :: insertSorted kv xs
+
+def step (_ : Unit) (line : String) : Unit × String :=
+  match words line with
+  | "tok" :: raws =>
+    let rs := raws.map parseRaw
+    if rs.all Option.isSome then
+      let (ts, es) := IntRange.produce (rs.filterMap id)
+      let vals := ts.filterMap fun t => (IntRange.parserValue t).map toString
+      ((), s!"T {commaOrDash (ts.map showTok)} E {commaOrDash (es.map bit)} V {commaOrDash vals}")
+    else ((), "bad-raw")
+  | ["asg", a, b] =>
+    match parseTyS a, parseTyS b with
+    | some x, some y =>
+      let m := match Assign.meet x y with
+        | some t => showTy t
+        | none => "none"
+      ((), s!"a={bit (Assign.assignable x y)} m={m} s={bit (Assign.sameType x y)} p={bit (Assign.containsPlaceholder x)}{bit (Assign.containsPlaceholder y)}")
+    | _, _ => ((), "bad-type")
+  | ["slv", tps, c, g] =>
+    let ns := ((tps.splitOn ",").filterMap String.toNat?)
+    match parseTyS c, parseTyS g with
+    | some x, some y =>
+      let (s, sg, e) := Assign.solveTypeConstraints ns x y
+      let kv := s.foldl (fun acc p => insertSorted (p.1, showTy p.2) acc) []
+      ((), s!"s={commaOrDash (kv.map fun p => toString p.1 ++ ":" ++ p.2)} g={showTy sg} e={bit e}")
+    | _, _ => ((), "bad-type")
+  | _ => ((), "bad-op")
+
+def run : IO Unit := runLoop () step
+
+end Driver.C06
+
 def main (_args : List String) : IO UInt32 := do
-  IO.eprintln "drv-c06: not implemented yet"
-  return 2
+  Driver.C06.run
+  return 0
